@@ -24,6 +24,16 @@ if hasattr(sys, 'set_int_max_str_digits'):
 
 from vf import core
 from vf.core import fs
+from extract import algebra_dispatch
+
+EXTRA_TARGETS = ()
+
+
+def regenerate(ctx):
+    changed = algebra_dispatch.regenerate()
+    return [('extract(operator/functional overloads -> Gen/AlgebraDispatch.lean)', True,
+             'regenerated' if changed else 'unchanged')]
+
 
 RULE = ('random typed expression trees (depth <= 6 quick / <= 9 thorough) plus the systematic '
         'enumeration (leaf op1) op2 of all two-level combinations, over leaves {Matrix, Scaling, '
@@ -32,7 +42,9 @@ RULE = ('random typed expression trees (depth <= 6 quick / <= 9 thorough) plus t
         'dyadic grid. Non-trivial = the expression builds and its value at the sample point is '
         'not identically zero. distinct = distinct (field, class tree with leaves replaced by '
         'their kind and scalars by their class {0,1,-1,other}) among non-trivial cases.')
-TRUSTED = ['Python operator-overload semantics (__op__/__rop__ order, NotImplemented, '
+TRUSTED = ['translator tools/extract/algebra_dispatch.py (AST of the overloads and constructors -> '
+           'Gen/AlgebraDispatch.lean; tiny grammar, anything else aborts)',
+           'Python operator-overload semantics (__op__/__rop__ order, NotImplemented, '
            '__array_priority__, reflected-first rule for subclasses) as encoded in `build`',
            'leaf operators are opaque in the theorems (EnvOK: flagged-linear leaves are linear, '
            'Functional leaves return scalars); their executable versions in the driver are tested only']
@@ -818,8 +830,8 @@ def systematic_cases(ctx, pool, cplx, leaf_kinds):
             if ty1 is None or ty1[0] == 'F':
                 continue
             twos = level_forms(rng, pool, cplx, one, ty1)
-            if ctx.quick and cplx:
-                twos = [t for t in twos if rng.random() < 0.5]
+            if ctx.quick:
+                twos = [t for t in twos if rng.random() < (0.25 if cplx else 0.4)]
             for two in twos:
                 ty2 = pytype(two, pool)
                 d2 = ty2[0] if ty2 else l.dom
@@ -904,6 +916,19 @@ def problem_class(p, case, real, pool):
     return 'other;'
 
 
+def run_driver_parallel(lines, workers=4):
+    """core.run_driver on `workers` slices at once (the driver is interpreted; one process
+    per slice)."""
+    if len(lines) < 400:
+        return core.run_driver('C04', lines)
+    from concurrent.futures import ThreadPoolExecutor
+    n = (len(lines) + workers - 1) // workers
+    chunks = [lines[i:i + n] for i in range(0, len(lines), n)]
+    with ThreadPoolExecutor(max_workers=workers) as ex:
+        parts = list(ex.map(lambda c: core.run_driver('C04', c), chunks))
+    return [a for p in parts for a in p]
+
+
 def process(ctx, cases, pool, spaces, pool_ids, count=True):
     """Run the real code and the model on the cases; record violations / disagreements."""
     import time
@@ -915,7 +940,7 @@ def process(ctx, cases, pool, spaces, pool_ids, count=True):
             reals.append(run_real(c, pool, spaces, pool_ids))
         lines.append(line_of(c, pool))
     t1 = time.time()
-    outs = core.run_driver('C04', lines)
+    outs = run_driver_parallel(lines)
     t2 = time.time()
     ctx.extra['seconds_real_code'] = round(ctx.extra.get('seconds_real_code', 0) + t1 - t0, 1)
     ctx.extra['seconds_lean_driver'] = round(ctx.extra.get('seconds_lean_driver', 0) + t2 - t1, 1)
@@ -932,6 +957,9 @@ def process(ctx, cases, pool, spaces, pool_ids, count=True):
             f['tree'] = re.sub(r'L(\d+)', lambda m: 'L{}'.format(loc[int(m.group(1))]), f['tree'])
         mstatus = ans.split()[0]
         nontrivial = False
+        if f.get('tt') == '0':
+            ctx.disagree(desc, 'extracted dispatch (buildT over Gen/AlgebraDispatch.lean)',
+                         'differs from the hand-written build: ' + ans[:200], stream='translator')
         if real['status'] == 'skip':
             ctx.hit('skip/undefined-everywhere')
             continue
@@ -1070,7 +1098,7 @@ def run(ctx):
 
 def _run(ctx):
     quick = ctx.quick
-    n_rand = 1500 if quick else 8000
+    n_rand = 1200 if quick else 8000
     depth = 6 if quick else 9
     kinds_q = ('pow2', 'mat', 'l2sq', 'linf', 'inner', 'constf')
     kinds_t = ('pow2', 'pow3', 'mat', 'scale', 'ident', 'l2sq', 'linf', 'inner', 'constf', 'zerof')
